@@ -2,6 +2,13 @@ mod tables;
 
 pub use tables::CLDR_VERSION;
 
+/// Verification hook (off unless built with `--cfg unic_locale_verif`): read-only
+/// view of the compiled lookup tables.
+#[cfg(unic_locale_verif)]
+pub mod verif_hooks {
+    pub use super::tables::*;
+}
+
 use crate::subtags;
 
 unsafe fn lang_from_parts(
